@@ -1086,7 +1086,7 @@ def run(ctx: core.Ctx):
     for sig, cand in sorted(dev_best.items()):
         term = listlit([xop_coq(o) for o in cand["ops"]])
         spec_says = ctx.coq_eval(HEADER, f"snd (x_s_run (s_init, []) {term})")
-        model_says = ctx.coq_eval(HEADER, f"snd (x_m_run gen_cfg duckdb_residue (m_init, []) {term})")
+        model_says = ctx.coq_eval(HEADER, f"snd (x_m_run gen_cfg (residue_of gen_cfg) (m_init, []) {term})")
         ctx.deviation(sig, f"{op_str(cand['ops'][-1])}: implementation and spec part on the last step "
                            f"({dev_count[sig]} histories of this run with this shape)",
                       {"history": [op_str(o) for o in cand["ops"]], "ops_json": cand["ops"],
